@@ -9,6 +9,7 @@ mod iohook;
 mod stress;
 mod locksdemo;
 mod util;
+mod wal;
 
 fn arg(args: &[String], name: &str) -> Option<String> {
     args.iter().position(|a| a == name).and_then(|i| args.get(i + 1).cloned())
@@ -48,6 +49,7 @@ fn main() {
         "alloc-freelist" => alloc::run_freelist(seed, cases, &mut sink),
         "alloc-probe" => alloc::run_probe(seed, cases, &mut sink),
         "alloc-lookup" => alloc::run_lookup(seed, cases, &mut sink),
+        "wal" => wal::run(seed, cases, &mut sink),
         "core-pp" => core_pp::run(seed, cases, &mut sink),
         "core-mp" => core_mp::run(seed, cases, &mut sink),
         "core-mp-corpus" => {
